@@ -341,7 +341,11 @@ func (w *Worker) invoke(s *State, f *Frame, dest ssa.Value, recv IfaceV, method 
 	if recv.Opaque != "" {
 		if method.Name() == "Error" {
 			if dest != nil {
-				f.Env[dest] = litStr(recv.Opaque)
+				if m, ok := recv.V.(StrV); ok {
+					f.Env[dest] = m
+				} else {
+					f.Env[dest] = litStr(recv.Opaque)
+				}
 			}
 			return nil, false
 		}
